@@ -1,5 +1,5 @@
 From Coq Require Extraction.
 From Coq Require Import ExtrOcamlBasic.
-From NV Require Import Base.Witness Cram.Bytes Cram.Itf8 Cram.Ltf8 Cram.Vlq Cram.Rans4x8 Cram.Rans4x8O1 Cram.Nx16Xform Cram.Nx16O0 Cram.Nx16O1 Cram.Nx16Full Cram.Nx16Stripe Cram.Aac Cram.AacModes Cram.AacRle Cram.Fqz Cram.Names Cram.Cap Cram.Nx16Cap Cram.AacCap Cram.FqzCap Cram.NamesCap.
+From NV Require Import Base.Witness Cram.Bytes Cram.Itf8 Cram.Ltf8 Cram.Vlq Cram.Rans4x8 Cram.Rans4x8O1 Cram.Nx16Xform Cram.Nx16O0 Cram.Nx16O1 Cram.Nx16Full Cram.Nx16Stripe Cram.Aac Cram.AacModes Cram.AacRle Cram.Fqz Cram.Names Cram.Cap Cram.Nx16Cap Cram.AacCap Cram.FqzCap Cram.NamesCap Cram.FqzQmap.
 Extraction "model.ml" nv_types_witness write_itf8 read_itf8 write_ltf8 read_ltf8 write_uint7 read_uint7
-  encode_o0 spec_decode encode_o1 nx_encode_byte nx_decode nx_encode_s_byte nx_decode_s aac_encode_byte aac_decode aac_encode_s_byte aac_decode_s aac_encode_r_byte aac_decode_r fqz_encode fqz_decode names_encode names_decode nx_decode_s_capped aac_decode_r_capped fqz_decode_capped names_decode_capped.
+  encode_o0 spec_decode encode_o1 nx_encode_byte nx_decode nx_encode_s_byte nx_decode_s aac_encode_byte aac_decode aac_encode_s_byte aac_decode_s aac_encode_r_byte aac_decode_r fqz_encode fqz_decode names_encode names_decode nx_decode_s_capped aac_decode_r_capped fqz_decode_capped names_decode_capped fqz_decode_qm.
